@@ -56,7 +56,7 @@ def parseLine (line : String) : Line :=
 def continuation (n : String) : Bool :=
   ["local.name", "local.pop", "locals.realloc.type", "locals.realloc.name", "literal.enter.type",
    "literal.enter.name", "literal.leave.type", "literal.leave.name", "local.reactivate", "mem.alloc", "mem.before", "inc.num",
-   "lex.start.if", "lex.end.if"].contains n
+   "lex.start.if", "lex.start.fnflag", "lex.end.if"].contains n
 
 /-- the identifier line that follows `local.type` (within the same add_local_name) -/
 def findIdent : List Line → Nat → Option (Id × Bool × Int)
@@ -65,8 +65,18 @@ def findIdent : List Line → Nat → Option (Id × Bool × Int)
   | .out (.ident _ _ n p _ sb) :: _, _ => some (n, p, sb)
   | _ :: rest, k + 1 => findIdent rest k
 
-def frameIndex (fs : List Frame) (c m : Int) : Option Nat :=
-  fs.findIdx? (fun f => (f.c : Int) == c && (f.m : Int) == m)
+/-- the name-table offset the implementation returned to (`literal.leave.name`, within the same literal end) -/
+def findLeaveName : List Line → Nat → Option Int
+  | _, 0 => none
+  | [], _ => none
+  | .out (.ev "literal.leave.name" lo _) :: _, _ => some lo
+  | _ :: rest, k + 1 => findLeaveName rest k
+
+/-- which open literal ends: the innermost saved block with these counts (and, when the trace shows it, this start
+    offset); the blocks above it were abandoned by bison's error recovery -/
+def frameIndex (fs : List Frame) (c m : Int) (lo : Option Int) : Option Nat :=
+  fs.findIdx? (fun f => (f.c : Int) == c && (f.m : Int) == m &&
+    (match lo with | some lo => (f.lo : Int) == lo | none => true))
 
 /-- abstraction of one trace line (given the lines after it and the model state) to an event -/
 def toEvent (s : St) (name : String) (c sz : Int) (rest : List Line) : Except String (Option Ev) :=
@@ -80,7 +90,7 @@ def toEvent (s : St) (name : String) (c sz : Int) (rest : List Line) : Except St
   | "local.free_all" => .ok (some .freeAll)
   | "local.deactivate" => .ok (some .enterLit)
   | "literal.leave.saved" =>
-    match frameIndex s.loc.frames c sz with
+    match frameIndex s.loc.frames c sz (findLeaveName rest 3) with
     | some d => .ok (some (.leaveLit d))
     | none => .error s!"desync: no open literal saved ({c},{sz})"
   | "local.argtypes" => .ok (some (.argTypes (c - s.loc.tOff).toNat))
@@ -102,6 +112,7 @@ def toEvent (s : St) (name : String) (c sz : Int) (rest : List Line) : Except St
   | "fnctx.push" => .ok (some .fnPush)
   | "fnctx.full" => .ok (some .fnPush)
   | "fnctx.pop" => .ok (some .fnPop)
+  | "fnflag.set" => .ok (some .fnFlagSet)
   | _ => if continuation name then .ok none else .error s!"desync: unknown trace point {name}"
 
 structure Replay where
